@@ -58,6 +58,8 @@ type Unit struct {
 	nameCount map[string]int
 	allocs    []allocSite
 	lemmaAx   map[string]bool
+	atMatched map[string]bool // at-call / at-store clause keys that matched at least one site
+	opaque    map[string]bool // spec functions whose definition is hidden in this unit (opt opaque)
 	twoState  []*twoStateLemma // frame lemmas (mention old()): instantiated across every call
 	oblLines  map[int]bool // script lines that assume an earlier obligation's goal
 	assumedAt map[string]int
@@ -831,26 +833,8 @@ func (u *Unit) heapTyping(comp, term string) string {
 // is allocated at entry (pointer, slice backing array) is nil or allocated at entry. Objects allocated later (by the function or,
 // per their contracts, by callees) are therefore distinct from everything the entry heap holds.
 func (u *Unit) entryClosed(comp, term string) string {
-	ty, ok := u.heapTypes[comp]
-	if !ok {
-		return ""
-	}
-	var sel, binders string
-	switch u.heapKinds[comp] {
-	case "field", "cell":
-		sel, binders = fmt.Sprintf("(select %s hr)", term), "((hr Int))"
-	case "elem":
-		sel, binders = fmt.Sprintf("(select (select %s hr) hk)", term), "((hr Int) (hk Int))"
-	default:
-		return ""
-	}
-	ref := ""
-	switch ty.Underlying().(type) {
-	case *types.Pointer:
-		ref = sel
-	case *types.Slice:
-		ref = "(s.base " + sel + ")"
-	default:
+	sel, binders, refs := u.refOfComp(comp, term)
+	if len(refs) == 0 {
 		return ""
 	}
 	u.ensureAllocComp()
@@ -858,7 +842,51 @@ func (u *Unit) entryClosed(comp, term string) string {
 	if !u.declSeen[a0] {
 		u.declare(a0, u.heapSorts[allocComp])
 	}
-	return fmt.Sprintf("(forall %s (! (=> (select %s (refroot hr)) (or (= %s 0) (select %s (refroot %s)))) :pattern (%s)))", binders, a0, ref, a0, ref, sel)
+	var conj []string
+	for _, ref := range refs {
+		conj = append(conj, fmt.Sprintf("(or (= %s 0) (select %s (refroot %s)))", ref, a0, ref))
+	}
+	return fmt.Sprintf("(forall %s (! (=> (select %s (refroot hr)) (and %s)) :pattern (%s)))", binders, a0, strings.Join(conj, " "), sel)
+}
+
+// refsOfValue: the reference-valued parts of a value of type ty (pointers, slice backing arrays),
+// looking into struct values one level at a time.
+func (u *Unit) refsOfValue(term string, ty types.Type, depth int) []string {
+	switch tt := ty.Underlying().(type) {
+	case *types.Pointer:
+		return []string{term}
+	case *types.Slice:
+		return []string{"(s.base " + term + ")"}
+	case *types.Struct:
+		if depth > 2 {
+			return nil
+		}
+		u.sortOf(ty)
+		var out []string
+		for i := 0; i < tt.NumFields(); i++ {
+			out = append(out, u.refsOfValue(fmt.Sprintf("(%s %s)", u.fieldAcc(ty, i), term), tt.Field(i).Type(), depth+1)...)
+		}
+		return out
+	}
+	return nil
+}
+
+// refOfComp: for a component holding references (directly or inside struct values), the select
+// term, its binders and the references it holds.
+func (u *Unit) refOfComp(comp, term string) (sel, binders string, refs []string) {
+	ty, ok := u.heapTypes[comp]
+	if !ok {
+		return "", "", nil
+	}
+	switch u.heapKinds[comp] {
+	case "field", "cell":
+		sel, binders = fmt.Sprintf("(select %s hr)", term), "((hr Int))"
+	case "elem":
+		sel, binders = fmt.Sprintf("(select (select %s hr) hk)", term), "((hr Int) (hk Int))"
+	default:
+		return "", "", nil
+	}
+	return sel, binders, u.refsOfValue(sel, ty, 0)
 }
 
 const allocComp = "$alloc"
